@@ -124,7 +124,7 @@ package influxql
 //@   ensures 0 <= rd.i && rd.i < 3 && 0 <= rd.n && rd.n <= 3 && s.r == old(s.r)
 //@   ensures tok == STRING || tok == BADSTRING || tok == BADESCAPE
 //   -- the position of a string token is the position of its opening quote (the rune delivered last)
-//@   claims [C05] tok == STRING || tok == BADSTRING ==> pos.Line == old(rd.buf[(rd.i-rd.n+3)%3].pos.Line) && pos.Char == old(rd.buf[(rd.i-rd.n+3)%3].pos.Char)
+//@   claims [C05] @strpos tok == STRING || tok == BADSTRING ==> pos.Line == old(rd.buf[(rd.i-rd.n+3)%3].pos.Line) && pos.Char == old(rd.buf[(rd.i-rd.n+3)%3].pos.Char)
 
 //@ func ScanDelimited
 //@   props C05 C04
@@ -176,4 +176,4 @@ package influxql
 //@   ensures old(rd.n) > 0 && tok != BADSTRING && tok != BADESCAPE && tok != STRING ==> pos.Line == old(rd.buf[(rd.i-(rd.n-1)+3)%3].pos.Line) && pos.Char == old(rd.buf[(rd.i-(rd.n-1)+3)%3].pos.Char)
 //@   ensures old(rd.n) == 0 && tok != BADSTRING && tok != BADESCAPE && tok != STRING ==> pos.Line == old(rd.pos.Line) && pos.Char == old(rd.pos.Char)
 //   -- string tokens too (property as stated; see finding on scanString)
-//@   claims [C05] old(rd.n) == 0 && (tok == STRING || tok == BADSTRING) ==> pos.Line == old(rd.pos.Line) && pos.Char == old(rd.pos.Char)
+//@   claims [C05] @strpos old(rd.n) == 0 && (tok == STRING || tok == BADSTRING) ==> pos.Line == old(rd.pos.Line) && pos.Char == old(rd.pos.Char)
